@@ -1,7 +1,7 @@
 #!/bin/bash
-# tools/collect_seeded.sh C06   : verify and store the seeded change of /tmp/wt_C06 under seeded/C06-<n>/, then remove the worktree
+# tools/collect_seeded.sh C06 2 /tmp/w2_C06 : verify and store the seeded change of a worktree under seeded/C06-<n>/
 set -u
-ID="$1"; WT="/tmp/wt_$ID"; N="${2:-1}"
+ID="$1"; N="${2:-1}"; WT="${3:-/tmp/wt_$ID}"
 DST="/verif/seeded/$ID-$N"
 cd "$WT" || exit 2
 git diff -- ipv8 > /tmp/seed_$ID.diff
